@@ -6,6 +6,7 @@ int vh_cb_errors, vh_cb_warnings, vh_cb_last_category;
 int vh_in_lib;
 long vh_alloc_calls, vh_fault_at, vh_fault_fired;
 
+static long pending_fault, last_allocs, last_fired;
 static char *outbuf;
 static size_t outlen, outcap;
 
@@ -150,6 +151,21 @@ int main(int argc, char **argv)
 	if (vh_tok[0][0] == '#') {	/* comment line: echoed by neither side */
 	    continue;
 	}
+	if (strcmp(vh_tok[0], "fault") == 0 && vh_ntok == 2) {	/* fail the k-th allocation of the next operation */
+	    pending_fault = vh_parse_long(vh_tok[1]);
+	    puts("ok");
+	    fflush(stdout);
+	    continue;
+	}
+	if (strcmp(vh_tok[0], "allocs") == 0) {	/* allocations requested by the previous operation */
+	    printf("ok %ld fired=%ld\n", last_allocs, last_fired);
+	    fflush(stdout);
+	    continue;
+	}
+	vh_alloc_calls = 0;
+	vh_fault_fired = 0;
+	vh_fault_at = pending_fault;
+	pending_fault = 0;
 	if (strcmp(vh_tok[0], "conv") == 0)
 	    rc = vh_conv();
 	else if (strcmp(vh_tok[0], "convn") == 0)
@@ -166,6 +182,9 @@ int main(int argc, char **argv)
 	    rc = vh_file();
 	else
 	    rc = -1;
+	last_allocs = vh_alloc_calls;
+	last_fired = vh_fault_fired;
+	vh_fault_at = 0;
 	if (rc < 0 && outlen == 0)
 	    vh_out("bad-op");
 	puts(outbuf ? outbuf : "");
